@@ -30,15 +30,6 @@ Proof.
   all: other_fin.
 Qed.
 
-Lemma o_L1 s a s' a' : apc (A s a) = RwLockModel.L1 -> Inv s -> a' <> a -> step s (Step a) = Some s' -> ovf s' = false -> ainv s' a'.
-Proof.
-  intros EP Hi Hne H Hov. destruct (IG _ Hi) as (G1 & G2 & G3 & G4 & G5 & G6 & G7 & G8 & G9 & G10 & G11).
-  other_tac Hi H EP a a'.
-  all: try solve [keep_entry a'].
-  all: try solve [yclause Hi a].
-  all: other_fin.
-Qed.
-
 Lemma o_L2 s a s' a' : apc (A s a) = RwLockModel.L2 -> Inv s -> a' <> a -> step s (Step a) = Some s' -> ovf s' = false -> ainv s' a'.
 Proof.
   intros EP Hi Hne H Hov. destruct (IG _ Hi) as (G1 & G2 & G3 & G4 & G5 & G6 & G7 & G8 & G9 & G10 & G11).
